@@ -106,11 +106,11 @@ func fillBytes(kind string, n int) []byte {
 // histObs: what the file held after one writing step
 type histObs struct {
 	Step   int
-	Want   []int      // the sequence a reader must find
-	Writes [][2]int   // the Writes that make up Want: (first id, length); length 0 = empty Write
-	Got    []int      // the sequence found (-1: not an item of ours)
-	Count  int64      // STL count field, -1 for the other formats
-	Bad    string     // "" or what is wrong
+	Want   []int    // the sequence a reader must find
+	Writes [][2]int // the Writes that make up Want: (first id, length); length 0 = empty Write
+	Got    []int    // the sequence found (-1: not an item of ours)
+	Count  int64    // STL count field, -1 for the other formats
+	Bad    string   // "" or what is wrong
 }
 
 func idRange(base, n int) []int {
@@ -499,13 +499,13 @@ func genHist(rng *Rng, tier string, n3, n2 int, dir string) []histCase {
 			if f == "dxf" || f == "svg" {
 				a, b, c := rng.Range(1, N+1), rng.Range(1, N+1), rng.Range(1, 2*N)
 				for _, steps := range [][]HistStep{
-					{step("obj", a, N), step("obj+", 0, N)},                                      // saved twice, nothing added
-					{step("obj", a, N), step("obj+", b, N)},                                      // lines added after a save
-					{step("obj", 0, N), step("obj+", 0, N), step("obj+", c, N)},                  // empty drawing saved first
+					{step("obj", a, N), step("obj+", 0, N)},                                         // saved twice, nothing added
+					{step("obj", a, N), step("obj+", b, N)},                                         // lines added after a save
+					{step("obj", 0, N), step("obj+", 0, N), step("obj+", c, N)},                     // empty drawing saved first
 					{step("obj", a, N), step("obj+", b, N), step("obj+", c, N), step("obj+", 0, N)}, // again and again
-					{step("obj", a, N), step("to", c, N), step("obj+", b, N)},                    // the streaming entry point writes the path in between
-					{step("obj", c, N), step("save", a, N), step("obj+", 0, N)},                  // the batch entry point in between, then the same drawing again
-					{step("obj", a, N), step("obj", b, N), step("obj+", c, N)},                   // a second object for the same path
+					{step("obj", a, N), step("to", c, N), step("obj+", b, N)},                       // the streaming entry point writes the path in between
+					{step("obj", c, N), step("save", a, N), step("obj+", 0, N)},                     // the batch entry point in between, then the same drawing again
+					{step("obj", a, N), step("obj", b, N), step("obj+", c, N)},                      // a second object for the same path
 					{step("obj", c, N), {Via: "bytes", Bytes: 100000, Fill: "text"}, step("obj+", 1, N)},
 				} {
 					out = append(out, histCase{fmt.Sprintf("history/%s/object-saved-again", f), HistSpec{Format: f, Steps: steps}})
